@@ -72,6 +72,9 @@ func newReplayer(p *sym.Program) (*replayer, error) {
 	filepath.Walk(hdir, func(pth string, info os.FileInfo, err error) error {
 		if err == nil && !info.IsDir() && strings.HasSuffix(pth, ".go") {
 			rel, _ := filepath.Rel(hdir, pth)
+			if _, dropped := p.Dropped[filepath.Join(repoDir(), rel)]; dropped {
+				return nil // does not compile against this tree: left out of the native build too
+			}
 			rep[filepath.Join(repoDir(), rel)] = pth
 		}
 		return nil
@@ -292,6 +295,7 @@ func checkMain(args []string) int {
 	var results []*sym.HarnessResult
 	var notes []string
 	validated := 0
+	ran, skipped := 0, 0
 	inconclusive := func(msg string) {
 		fmt.Printf("INCONCLUSIVE property=%s %s\n", id, msg)
 		notes = append(notes, msg)
@@ -325,6 +329,22 @@ func checkMain(args []string) int {
 		if hs.TimeoutS > 0 {
 			cfg.SolverTimeout = time.Duration(hs.TimeoutS) * time.Second
 		}
+		if prog.Harness[full] == nil && len(prog.Dropped) > 0 {
+			// a white-box harness that no longer compiles against this tree (e.g. after an
+			// internal rename) is left out; the others still decide the property
+			why := ""
+			for f, msg := range prog.Dropped {
+				why += filepath.Base(f) + ": " + msg + "; "
+			}
+			if len(why) > 400 {
+				why = why[:400]
+			}
+			fmt.Printf("SKIPPED property=%s harness=%s does not compile against this tree (%s)\n", id, hs.Name, why)
+			notes = append(notes, "skipped "+hs.Name+": harness file does not compile against this tree")
+			skipped++
+			continue
+		}
+		ran++
 		res, err := sym.Explore(prog, full, sym.ExploreOpts{Workers: *workers, Cfg: cfg})
 		if err != nil {
 			inconclusive(fmt.Sprintf("harness=%s engine error: %v", hs.Name, err))
@@ -421,8 +441,8 @@ func checkMain(args []string) int {
 			}
 		}
 	}
-	if exit == 1 {
-		// a confirmed violation outranks inconclusive parts
+	if ran == 0 && skipped > 0 {
+		inconclusive("none of the registered harnesses compiles against this tree")
 	}
 	writeEvidence(id, *tier, seed, specs, results, time.Since(t0), violations, append(notes, fmt.Sprintf("validated=%d", validated)))
 	evidencePatchValidated(id, validated)
